@@ -58,7 +58,7 @@ func c18r1(r *R) {
 				}
 				switch {
 				case strings.HasPrefix(e.Desc, "(*strings.Builder).WriteString(local:sb, "):
-					seq = append(seq, strings.TrimSuffix(strings.TrimPrefix(e.Desc, "(*strings.Builder).WriteString(local:sb, "), ")"))
+					seq = append(seq, flattenConcat(strings.TrimSuffix(strings.TrimPrefix(e.Desc, "(*strings.Builder).WriteString(local:sb, "), ")"))...)
 				case strings.HasPrefix(e.Desc, "(*strings.Builder).WriteByte(local:sb, "):
 					seq = append(seq, "byte:"+strings.TrimSuffix(strings.TrimPrefix(e.Desc, "(*strings.Builder).WriteByte(local:sb, "), ")"))
 				case strings.HasPrefix(e.Desc, "fmt.Fprintf(local:sb, "):
@@ -229,4 +229,13 @@ func c18r5(r *R) {
 	merged := base != nil && wr != nil && instrDominates(base, wr) && (dyn == nil || before(base, dyn) && describe(base.Common().Args[0]) == describe(dyn.Common().Args[0]))
 	r.check(merged, "DialContextR#connect-header", dl.Pos(), "ProxyConnectHeader copied into the CONNECT request on every path; dynamic headers are merged over it", "the client's CONNECT header (with this instance's Via element) does not always reach the upstream proxy: dynamic connect headers replace it instead of being merged")
 	r.check(ok, "middlewareStack#NewStack(name)", ms.Pos(), "stack built with the configured proxy name", "the production stack is not built by httpspec.NewStack(config.Name)")
+}
+
+// flattenConcat splits a string concatenation term "((a + b) + c)" into its operands.
+func flattenConcat(t string) []string {
+	l, op, r, ok := splitTop(t)
+	if !ok || op != "+" {
+		return []string{t}
+	}
+	return append(flattenConcat(l), flattenConcat(r)...)
 }
